@@ -90,6 +90,13 @@ def run(ctx) -> None:
                  ("R19e", "lint catches everything"), ("R19f", "max/min and dictionary subscripts are total")]:
         ctx.rule(r, d)
     funcs = [m for c in classes if not c.module.is_test for m in c.methods.values()]
+    # module-level helpers of the analyzer modules are part of the analysis code too (a partial operation moved into a
+    # helper is still evaluated for every method text)
+    seen_mods = []
+    for c in classes:
+        if not c.module.is_test and c.module not in seen_mods:
+            seen_mods.append(c.module)
+            funcs += list(c.module.functions.values())
     n_has = 0
     for f in funcs:
         g = cfg_of(f)
